@@ -102,7 +102,7 @@ class Judge:
             self.res.fail(prop + '-' + code, detail)
 
     # ---------------------------------------------------------------- links (C01)
-    def validate_level(self, b, path=(), outer=None):
+    def validate_level(self, b, path=(), outer=None, outer_obj=None):
         """Links of the entries of one circuit, by identity with the objects returned by add."""
         prog, ent = b.prog, b.ent
         depth = {}
@@ -129,6 +129,11 @@ class Judge:
                         # once listed, its first operations carry the block's relation
                         if ref is not None and (ref is not outer.reference_node or link.relation_type != outer.relation_type):
                             self.fail('C01', 'block-root', 'entry %s of %r must start with its block (relation %r), reports %r' % (path + (i,), prog, outer, link))
+                            ok = False
+                        # "no relation starts with its enclosing (sub-)circuit": whatever link the entry carries after listing
+                        if outer_obj is not None and abs(obj.start_time - outer_obj.start_time) > EPS:
+                            self.fail('C01', 'block-root-time', 'entry %s of %r was added without a relation and must start with its block at %r, starts at %r' % (
+                                path + (i,), prog, outer_obj.start_time, obj.start_time))
                             ok = False
                     elif ref is not None:
                         self.fail('C01', 'implicit-root', 'entry %s of %r shares no channel with earlier entries but follows %r' % (path + (i,), prog, link))
@@ -172,14 +177,14 @@ class Judge:
             return False
         return True
 
-    def validate_tree(self, b, path=(), outer=None):
-        ok = self.validate_level(b, path, outer)
+    def validate_tree(self, b, path=(), outer=None, outer_obj=None):
+        ok = self.validate_level(b, path, outer, outer_obj)
         for i, sb in enumerate(b.subs):
             if sb is not None:
                 e = b.prog[i]
                 if len(e) > 4 and e[4] is not None:
                     # inserted with add_operation: the block given *is* the block in the circuit
-                    ok &= self.validate_tree(sb, path + (i,), outer=b.ent[i].relation_link)
+                    ok &= self.validate_tree(sb, path + (i,), outer=b.ent[i].relation_link, outer_obj=b.ent[i])
                 else:
                     ok &= self.validate_tree(sb, path + (i,))          # the block as given
                     ok &= self.validate_copy(b.ent[i], sb, path + (i,))  # the block as added
